@@ -451,6 +451,8 @@ def e2e(chk):
         lens = sorted(set([1, 2, 3, 5, 9, 17, 32, 64, 256, 512, 900, 1500, 2500, 3500, 4500, 5000]
                           + list(range(1000, 1041, 2)) + [1023, 1025] + list(range(2030, 2061, 2)) + [2047, 2049]
                           + list(range(3060, 3086, 3)) + [3071, 3072, 3073] + list(range(4085, 4111, 3)) + [4095, 4096, 4097]))
+    # tokens far beyond every buffer size (the ~64 KiB scanner and pipe sizes)
+    lens = sorted(set(lens + [65535, 65536, 65537, 70000] + ([] if chk.tier == "quick" else [131071, 131072, 131073, 200000])))
     for L in lens:
         for off in ((0, 700) if chk.tier == "quick" else (0, 333, 700, 1500)):
             pre = [(off // 4, "# p\n")] if off else []
@@ -587,7 +589,8 @@ def main(chk):
         "(+ last-read-with-EOF and random schedules on a fifth/seventh of the texts); sampled line breaks of native/*.pangaea and "
         "example/*.pangaea (%d files classified); every program unchanged through every chunking; tokens (string, raw string with, "
         "without and with CR LF line ends, comment, final comment, identifier, identifier?, private identifier, embedded string) of the lengths "
-        "1..32, powers of two, 1000..1040, 2030..2060, 3060..3085, 4085..4110, every 250 up to 5000 (quick: about every second) at two "
+        "1..32, powers of two, 1000..1040, 2030..2060, 3060..3085, 4085..4110, every 250 up to 5000 (quick: about every second), 65535..65537, 70000 "
+        "(thorough: also around 131072 and 200000) at two "
         "offsets x the %d chunkings; raw strings inside sources given to Str#eval one after the other; seeded random tail (1-3 breaks padded at once, sizes up to 5000, random schedules). "
         "Coq side: matcher strings (padding shapes x sizes x 15 followers, long-token shapes incl. unterminated/escaped, seeded fragment "
         "strings) and lexer runs (token sequences x schedules). non-trivial: padding/token larger than one byte, resp. a string on "
